@@ -2,26 +2,52 @@
    refutation examples and for measuring, in the check, how many generated programs tell the two
    apart): a target was marked assigned before its right-hand side / body was visited, macro
    parameters before their defaults, the macro name before the macro, `loop` before the iterable
-   and the filter of a for loop, and the value of autoescape was not visited. *)
-From MJ Require Import Common.Base Lang.Syntax Lang.Meta.
+   and the filter of a for loop, and the value of autoescape, the sliced value of a slice and the
+   namespace of an attribute assignment (written ESlice / SSetAttr, see C18/XInterp.v) were not
+   visited. *)
+From MJ Require Import Common.Base Lang.Syntax Lang.Meta Lang.Interp C18.XInterp.
+
+(* tracker_visit_expr before the fix: Slice.expr was not visited, and track_assign ignored
+   attribute targets *)
+Fixpoint visit_expr_old (e : expr) (t : tstate) {struct e} : tstate :=
+  match e with
+  | EConst _ => t
+  | EVar x => t_lookup x t
+  | EList items => (fix go l t := match l with [] => t | x :: r => go r (visit_expr_old x t) end) items t
+  | ENeg a | ENot a => visit_expr_old a t
+  | EBin _ a b | EAnd a b | EOr a b => visit_expr_old b (visit_expr_old a t)
+  | ECmp a rest => (fix go (l : list (cmpop * expr)) t := match l with [] => t | (_, x) :: r => go r (visit_expr_old x t) end) rest (visit_expr_old a t)
+  | EIf c a f => let t := visit_expr_old a (visit_expr_old c t) in match f with Some f => visit_expr_old f t | None => t end
+  | EItem a i => visit_expr_old i (visit_expr_old a t)
+  | EAttr a _ => visit_expr_old a t
+  | EFilter f a args =>
+      let t := if f =? F_slice then t else visit_expr_old a t in
+      if f =? F_setattr then t else
+      (fix go l t := match l with [] => t | x :: r => go r (visit_expr_old x t) end) args t
+  | ETest _ a args _ =>
+      (fix go l t := match l with [] => t | x :: r => go r (visit_expr_old x t) end) args (visit_expr_old a t)
+  | ECall f args kwargs =>
+      let t := (fix go l t := match l with [] => t | x :: r => go r (visit_expr_old x t) end) args (t_lookup f t) in
+      (fix go (l : list (name * expr)) t := match l with [] => t | (_, x) :: r => go r (visit_expr_old x t) end) kwargs t
+  end.
 
 Fixpoint walk_old (s : stmt) (t : tstate) {struct s} : tstate :=
   let walk_list := fix go (l : list stmt) (t : tstate) : tstate := match l with [] => t | x :: r => go r (walk_old x t) end in
   let visit_macro (declare_caller : bool) (params : list name) (defaults : list (name * expr)) (body : list stmt) (t : tstate) :=
       let t := if declare_caller then t_assign N_caller t else t in
       let t := fold_left (fun t p => t_assign p t) params t in
-      let t := fold_left (fun t d => visit_expr (snd d) t) defaults t in
+      let t := fold_left (fun t d => visit_expr_old (snd d) t) defaults t in
       walk_list body t in
   match s with
   | SRaw _ | SBreak | SContinue => t
-  | SEmit e => visit_expr e t
+  | SEmit e => visit_expr_old e t
   | SIf arms els =>
       (* `elif` is a nested if in the else branch: cond, push, body, pop, push, <rest>, pop *)
       (fix go (l : list (expr * list stmt)) (t : tstate) : tstate :=
          match l with
          | [] => match els with Some b => walk_list b t | None => t end
          | (c, b) :: r =>
-             let t := visit_expr c t in
+             let t := visit_expr_old c t in
              let t := t_pop (walk_list b (t_push t)) in
              match r, els with
              | [], None => t_pop (t_push t)
@@ -30,19 +56,19 @@ Fixpoint walk_old (s : stmt) (t : tstate) {struct s} : tstate :=
          end) arms t
   | SFor tg iter flt body els _ =>
       let t := t_assign N_loop (t_push t) in
-      let t := visit_expr iter t in
+      let t := visit_expr_old iter t in
       let t := assign_target tg t in
-      let t := match flt with Some f => visit_expr f t | None => t end in
+      let t := match flt with Some f => visit_expr_old f t | None => t end in
       let t := t_pop (walk_list body t) in
       t_pop (match els with Some b => walk_list b (t_push t) | None => t_push t end)
-  | SSet x e => visit_expr e (t_assign x t)
+  | SSet x e => visit_expr_old e (t_assign x t)
   | SSetBlock x body _ => t_pop (walk_list body (t_push (t_assign x t)))
   | SWith binds body =>
-      let t := fold_left (fun t b => visit_expr (snd b) (t_assign (fst b) t)) binds (t_push t) in
+      let t := fold_left (fun t b => visit_expr_old (snd b) (t_assign (fst b) t)) binds (t_push t) in
       t_pop (walk_list body t)
   | SMacro nm params defaults body => t_pop (visit_macro true params defaults body (t_push (t_assign nm t)))
   | SCallBlock mn args body =>
-      let t := fold_left (fun t a => visit_expr a t) args (t_lookup mn t) in
+      let t := fold_left (fun t a => visit_expr_old a t) args (t_lookup mn t) in
       t_pop (visit_macro true [] [] body (t_push t))
   | SFilterBlock _ body | SAutoEscape _ body => t_pop (walk_list body (t_push t))
   end.
@@ -53,7 +79,7 @@ Definition walk_list_old (l : list stmt) (t : tstate) : tstate := fold_left (fun
 Definition closure_raw_old (params : list name) (defaults : list (name * expr)) (body : list stmt) : list name :=
   let t := mkT [] [[]] in
   let t := fold_left (fun t p => t_assign p t) params t in
-  let t := fold_left (fun t d => visit_expr (snd d) t) defaults t in
+  let t := fold_left (fun t d => visit_expr_old (snd d) t) defaults t in
   t_out (walk_list_old body t).
 
 Definition find_undeclared_old (body : list stmt) : list name := t_out (walk_list_old body (mkT [] [[]])).
